@@ -534,7 +534,10 @@ def run_check(prop: str, tier: str, seed: int, runs: int | None = None, workers:
             "wall_s": round(wall, 2),
             "violations": len(violations_new) + len(unshrunk_sites),
         }
-        write_json(os.path.join(ROOT, "evidence", f"{prop}.json"), evidence)
+        ev_path = os.path.join(ROOT, "evidence", f"{prop}.json")
+        if runs is not None:  # development run with an explicit run count: do not touch committed evidence
+            ev_path = os.path.join(ROOT, "replays", f"dev-evidence-{prop}.json")
+        write_json(ev_path, evidence)
         print(
             f"{prop} {tier}: runs={total['n']} nontrivial_distinct={n_nontrivial} interleavings={n_inter} "
             f"faults_fired={sum(faults.values())} violating_runs={total['violating_runs']} new_sites={len(violations_new)} wall={wall:.1f}s"
